@@ -904,23 +904,32 @@ def r_discinfo_pos(model, rep):
            msg="" if ok else "the file must be the lines joined with newlines / read back with readlines()")
 
 
-def r_fix_path_identity(model, rep, classes=("treeinfo.Images", "treeinfo.Stage2", "treeinfo.Checksums"), rule_id="R-FIX-PATH"):
+def r_fix_path_identity(model, rep, classes=("treeinfo.Images", "treeinfo.Stage2", "treeinfo.Checksums"), rule_id="R-FIX-PATH",
+                        relative_clause=False):
     """_fix_path returns its argument unchanged for every format version but the pre-productmd one"""
     V = current_version(model)
     for q in classes:
         f = model.own_method(q, "_fix_path")
         cx = facts.fctx(model, f)
         p_ = P(cx.params[1])
-        rets = [ev for ev in cx.events if ev.kind == "return"]
-        binds = [ev for ev in cx.events if ev.kind == "bind" and ev.target == ("bound", cx.params[1])]
-        ok = bool(rets)
-        for r in rets:
-            alts = set(r.value[1]) if r.value[0] == "phi" else {r.value}
-            legacy = set(b.value for b in binds if not facts.active_at(b, V) and not facts.active_at(b, (1, 0)) and not facts.active_at(b, (0, 3)))
-            ok = ok and p_ in alts and (alts - {p_}) <= legacy and not [g for g in r.guards if facts.gate_term_value(g[0], (1, 0)) is None]
+        # evaluated per format version: for every version but the pre-productmd one, every path returns the argument itself
+        ok = bool([ev for ev in cx.events if ev.kind == "return"]) and not cx.ex.falls_through and bool(facts.version_terms(cx))
+        for v in facts.version_grid("thorough"):
+            if v == (0, 0):
+                continue
+            ok = ok and facts.at_version(cx, v).returns() == [p_]
         rep.ob(rule_id, "%s._fix_path" % q, ok, site=cx.site(f.node),
                msg="" if ok else "%s._fix_path changes paths of current-version files (it must return its argument unchanged except for "
                                  "format 0.0): what is read back is not what was written" % q)
+        if relative_clause:
+            # the legacy rewriting concerns absolute build paths only: on relative paths _fix_path is the identity for *every*
+            # version, hence injective -- two distinct relative paths of a legacy file never collapse onto one key
+            absolute = ("call", ("attr", p_, "startswith"), (("const", "/"),), ())
+            ok2 = facts.at_version(cx, (0, 0), atoms={absolute: False}).returns() == [p_]
+            rep.ob(rule_id, "%s._fix_path:relative-paths-unchanged" % q, ok2, site=cx.site(f.node),
+                   msg="" if ok2 else "%s._fix_path rewrites relative paths of pre-productmd files as well (the documented conversion strips "
+                                      "absolute build prefixes only): distinct paths can collapse onto one key, so a path can carry a "
+                                      "checksum written for another" % q)
 
 
 def r_checksums_schema(model, rep):
@@ -1017,12 +1026,35 @@ def _legacy_table(model, q):
             v = r.value
             if T.contains(v, lambda x: x[0] == "call" and x[1] == ("global", "get_date_type_respin")):
                 srcs.add("<get_date_type_respin(id)>")
-            elif v[0] == "const" or (v[0] == "unary" and v[2][0] == "const"):
+            elif _const_rooted(cx, v):
                 srcs.add("<const>")
             else:
                 srcs.add("<derived>")
         table.setdefault(r.attr, set()).update(srcs)
     return cx, f, table
+
+
+def _const_rooted(cx, v):
+    """a literal, or an entry of a module-level constant table (looked up / iterated in whatever way)"""
+    if v[0] == "const":
+        return True
+    if v[0] == "unary":
+        return _const_rooted(cx, v[2])
+    if v[0] in ("elem", "idx", "sub"):
+        return _const_rooted(cx, v[1])
+    if v[0] == "call" and v[1][0] == "attr" and v[1][2] == "get" and len(v[2]) in (1, 2):
+        return _const_rooted(cx, v[1][1]) and (len(v[2]) == 1 or _const_rooted(cx, v[2][1]))
+    if v[0] == "call" and v[1][0] == "global" and v[1][1].endswith(".get") and len(v[2]) in (1, 2):
+        return _const_rooted(cx, ("global", v[1][1][:-4])) and (len(v[2]) == 1 or _const_rooted(cx, v[2][1]))
+    if v[0] == "phi":
+        return all(_const_rooted(cx, a) for a in v[1])
+    if v[0] == "global":
+        try:
+            cx.const_of(v)
+            return True
+        except Exception:
+            return False
+    return False
 
 
 def r_legacy_map(model, rep):
@@ -1130,6 +1162,7 @@ def check_c05(model, rep, tier):
     r_hdr_current(model, rep)
     r_setcur(model, rep)
     r_legacy_map(model, rep)
+    r_fix_path_identity(model, rep, relative_clause=True)
     from .sources import r_src_route
     from .regexes import r_legacy_compose
     r_src_route(model, rep)
